@@ -18,20 +18,35 @@ def _integer(digits: str) -> int:
         raise ParseError(str(error)) from error
 
 
+def _unrepresentable(error: OverflowError) -> "ParseError":
+    # prefixes of different bases are combined through floats, which cannot hold every
+    # exponent that can be written down
+    return ParseError(f"This unit cannot be represented: {error}")
+
+
 class QuantityTransformer(_parser.Transformer[Any, "Quantity"]):
     inline = _parser.v_args(inline=True)
 
     @inline
     def unit(self, numerator: Unit, denominator: Optional[Unit] = None) -> Unit:
-        return numerator / (denominator or One)
+        try:
+            return numerator / (denominator or One)
+        except OverflowError as error:
+            raise _unrepresentable(error) from error
 
     @inline
     def unit_sequence(self, *terms: Unit) -> Unit:
-        return reduce(operator.mul, terms)
+        try:
+            return reduce(operator.mul, terms)
+        except OverflowError as error:
+            raise _unrepresentable(error) from error
 
     @inline
     def term(self, symbol: str, exponent: int = 1) -> Unit:
-        return Unit.resolve_symbol(symbol) ** exponent
+        try:
+            return Unit.resolve_symbol(symbol) ** exponent
+        except OverflowError as error:
+            raise _unrepresentable(error) from error
 
     @inline
     def carat_exponent(self, exponent: str) -> int:
